@@ -23,9 +23,9 @@ import common
 
 ID = "C20"
 LEAN_MODEL_TARGETS = ["drv_c20"]
-LEAN_PROOF_TARGETS = ["PyroProps.C20"]
+LEAN_PROOF_TARGETS = ["PyroProps.C20Src", "PyroProps.C20"]
 AUDIT_FILES = ["PyroModel/Bytes.lean", "PyroModel/Gateway.lean", "PyroModel/Gen/C20.lean", "PyroProofs/Gateway.lean",
-               "PyroProps/C20.lean"]
+               "PyroProps/C20.lean", "PyroModel/GatewaySrc.lean", "PyroModel/Gen/C20Src.lean", "PyroProps/C20Src.lean"]
 THEOREMS = ["Pyro.C20.C20_no_traffic", "Pyro.C20.C20_refused", "Pyro.C20.C20_no_escape", "Pyro.C20.C20_dupkey_refused",
             "Pyro.C20.C20_actions_shape", "Pyro.C20.C20_at_most_one_invocation",
             "Pyro.C20.C20_faithful_call", "Pyro.C20.C20_faithful_attr", "Pyro.C20.C20_faithful_meta",
@@ -33,7 +33,14 @@ THEOREMS = ["Pyro.C20.C20_no_traffic", "Pyro.C20.C20_refused", "Pyro.C20.C20_no_
             "Pyro.C20.C20_status", "Pyro.C20.C20_homepage_only_keyless",
             "Pyro.C20.C20_split_sound", "Pyro.C20.C20_split_greedy", "Pyro.C20.C20_split_complete",
             "Pyro.C20.C20_history", "Pyro.C20.C20_history_json",
-            "Pyro.C20.C20_gen_facts"]
+            "Pyro.C20.C20_gen_facts",
+            # singlyfy_parameters, process_pyro_request (up to its try block) and pyro_app transcribed from the source on every
+            # run (c20_tr.py -> Gen/C20Src.lean): equal to the model for all inputs; the property restated about the transcription
+            "Pyro.C20.C20_singlyfy_translated", "Pyro.C20.C20_configWrite_translated", "Pyro.C20.C20_process_translated",
+            "Pyro.C20.C20_app_translated", "Pyro.C20.C20_source_no_traffic", "Pyro.C20.C20_source_refused",
+            "Pyro.C20.C20_source_forwarded", "Pyro.C20.C20_source_faithful_call",
+            # exactly once per request, and for every request of every history
+            "Pyro.C20.C20_exactly_once", "Pyro.C20.C20_source_exactly_once", "Pyro.C20.C20_history_exactly_once"]
 SUITES = ["gateway", "history"]
 RULE = ("requests generated from VERIF_SEED: method x path shape (0-4 segments, doubled/encoded slashes, newline, names "
         "differing from a registered one by prefix/suffix/case, proxy-local member names) x raw query string (repeated keys, "
@@ -252,6 +259,11 @@ def _pairs(items):
 
 def extract():
     f = _facts()
+    # the deciding functions of the source, transcribed (c20_tr.py: sound by refusal -> Untranslatable = broken tie)
+    from props import c20_tr
+    common.repo_on_path()
+    from Pyro5.utils import httpgateway as gw
+    common.write_if_changed(os.path.join(common.LEAN, "PyroModel", "Gen", "C20Src.lean"), c20_tr.transcribe(gw, f["path"]))
     b = "true" if f["defaultKeyIsNone"] else "false"
     sp = ", ".join("(%s, %s)" % (_cpl(p), "none" if t is None else "some (%s, %s)" % (_cpl(t[0]), _cpl(t[1]))) for p, t in f["splitProbes"])
     return f"""-- GENERATED by harness/props/c20.py by probing the real pyro_app of {f["path"]} — do not edit
